@@ -225,6 +225,9 @@ def accuracy_matrix(prop, tier, seed):
                 M.append(_c("Auer", "VVD2a", eps=e, empirical=False, script=dict(kind="auer", G=4, iso=True), max_steps=60))
                 M.append(_c("Auer", "VVD3a", eps=e, empirical=False, script=dict(kind="auer", G=3, iso=True), max_steps=60))
                 M.append(_c("Auer", "VVD2a", eps=e, empirical=True, script=dict(kind="auer", G=4), max_steps=60))
+                M.append(_c("PaVeBa", "VVD3a", order=("ice", 45, 6), eps=e, script=dict(kind="ball", G=3), max_steps=60))
+                M.append(_c("PaVeBa", "VVD3a", order=("cone3d", "obtuse"), eps=e, script=dict(kind="ball", G=3), max_steps=60))
+                M.append(_c("PaVeBaGP", "VVD3a", order=("orth", 3), eps=e, type="IH", script=dict(kind="rect", G=3), max_steps=60))
             else:
                 for cn in ("orth", "acute", "obtuse", "pyobt"):
                     M.append(_c("VOGP", "VVD2a", order=("Wint", WI[cn]), eps=e, script=dict(kind="rect", G=4), max_steps=60))
@@ -232,6 +235,10 @@ def accuracy_matrix(prop, tier, seed):
                 M.append(_c("EpsilonPAL", "VVD2a", eps=e, script=dict(kind="rect", G=4), max_steps=60))
                 M.append(_c("EpsilonPAL", "VVD3a", eps=e, script=dict(kind="rect", G=3), max_steps=60))
                 M.append(_c("VOGP", "VVD2a", order=("Wint", WI["acute"]), eps=e, batch=2, script=dict(kind="rect", G=4), max_steps=60))
+                # three objectives: cones with more (non-redundant) facets than objectives exist only from 3-D on
+                M.append(_c("VOGP", "VVD3a", order=("ice", 45, 6), eps=e, script=dict(kind="rect", G=3), max_steps=60))
+                M.append(_c("VOGP", "VVD3a", order=("ice", 30, 4), eps=e, script=dict(kind="rect", G=3), max_steps=60))
+                M.append(_c("VOGP", "VVD3a", order=("cone3d", "acute"), eps=e, script=dict(kind="rect", G=3), max_steps=60))
     rnd = random.Random(seed + 99)
     out = []
     for k, c in enumerate(M):
@@ -255,7 +262,12 @@ def accuracy_runs(ctx, prop):
             continue
         T = byid[tid]
         c = T["cfg"]
-        W = [[1, 0], [0, 1]] if "order" not in c else c["order"][1]
+        if "order" not in c:
+            W = [[1, 0], [0, 1]]
+        elif c["order"][0] in ("W", "Wint"):
+            W = c["order"][1]
+        else:
+            W = AT.make_order(tuple(c["order"])).ordering_cone.W
         kind = c.get("type") or ("empirical" if c.get("empirical") else c.get("confidence_type") or c["script"]["kind"])
         sig = "inaccurate|%s|%s|cone=%s" % (c["alg"], kind, cone_class(W) if "order" in c else "orth")
         ctx.violation(sig, {"cfg": c, "final": T["final"], "truth": "scripted (seed)", "steps": len(T["steps"])},
